@@ -113,6 +113,19 @@ pub fn run(ctx: &mut Ctx, _replay: Option<&[String]>) {
         let o2 = in_child(|| unsafe { !ldpc_toolbox_encoder_ctor(m.as_ptr(), p.as_ptr()).is_null() });
         ctx.emit(&format!("c19 nofile {}", enc_text(missing)), &format!("{} {}", o1, o2), true, &["unreadable-file"]);
     }
+    // C strings that are not valid UTF-8 (the conversion is lossy: U+FFFD can be neither a pattern item nor part of a name): null
+    {
+        let good_c = cs(&good).unwrap();
+        let bad_pat = CString::new(vec![0x31u8, 0x2c, 0x31, 0x2c, 0xff]).unwrap();
+        let bad_pat2 = CString::new(vec![0xffu8]).unwrap();
+        let bad_name = CString::new(vec![0x50u8, 0x68, 0x69, 0x66, 0x36, 0x34, 0xfe]).unwrap();
+        let (nm, empty) = (cs("Phif64").unwrap(), cs("").unwrap());
+        let o1 = in_child(|| unsafe { !ldpc_toolbox_decoder_ctor_alist_string(good_c.as_ptr(), nm.as_ptr(), bad_pat.as_ptr()).is_null() });
+        let o2 = in_child(|| unsafe { !ldpc_toolbox_encoder_ctor_alist_string(good_c.as_ptr(), bad_pat.as_ptr()).is_null() });
+        let o3 = in_child(|| unsafe { !ldpc_toolbox_decoder_ctor_alist_string(good_c.as_ptr(), nm.as_ptr(), bad_pat2.as_ptr()).is_null() });
+        let o4 = in_child(|| unsafe { !ldpc_toolbox_decoder_ctor_alist_string(good_c.as_ptr(), bad_name.as_ptr(), empty.as_ptr()).is_null() });
+        ctx.emit("c19 notutf8 pattern-and-name", &format!("{} {} {} {}", o1, o2, o3, o4), true, &["c-string-not-utf8"]);
+    }
     // a file that cannot be read as text: the valid alist with one invalid UTF-8 byte in a line the parser ignores (the weight lines)
     {
         let dir = std::env::var("VERIF_ROOT").map(|r| format!("{}/work", r)).unwrap_or("/tmp".into());
